@@ -482,3 +482,39 @@ Theorem C06_source_intersect_chunks : forall (A B : Type) (d1 d2 : Z) (a : list 
   filter (fun c => negb (Nat.eqb (length c) 0))
          (map (fun q => map (src_trim_row (lo q) (hi q) d1 d2) (filter (overlaps (lo q) (hi q)) a)) b).
 Proof. exact @source_intersect_chunks. Qed.
+
+(* merge._squash_tuples, whole body (Gen/FnIvSquash.v): squash -- what merge makes of each group of
+   overlapping rows -- IS the generated function on the group's size, its first row and the combined
+   row (first start, largest end, combined payload), through any encoding of rows as opaque values *)
+From CNV Require Import Proofs.FnIvSquash Proofs.FnIvFlatten.
+From CNV Require Gen.FnIvSquash Gen.FnIvFlatten.
+
+Theorem C06_source_squash : forall (A : Type) (comb : A -> list A -> A) (enc : @row A -> Z) (d1 d2 : Z)
+    (r : @row A) (g : list (@row A)),
+  map enc (squash comb (r :: g)) =
+  [Gen.FnIvSquash.fn_squash_tuples d1 (Z.of_nat (length (r :: g))) (enc r) d2 (enc (combined_row comb r g))].
+Proof. exact @source_squash. Qed.
+
+Theorem C06_source_merge_slow : forall (A : Type) (comb : A -> list A -> A) (enc : @row A -> Z) (d1 d2 bp : Z)
+    (t : list (@row A)),
+  map enc (merge_slow comb bp t) =
+  flat_map (fun grp => match grp with
+                       | [] => []
+                       | r :: g => [Gen.FnIvSquash.fn_squash_tuples d1 (Z.of_nat (length grp)) (enc r) d2
+                                      (enc (combined_row comb r g))]
+                       end)
+           (groups bp (sort_rows t)).
+Proof. exact @source_merge_slow. Qed.
+
+(* merge._flatten_tuples / _flatten_tuples_split, the generator's body (Gen/FnIvFlatten.v): the
+   coordinates of flatten_group -- a single row as it is, otherwise one piece per pair of consecutive
+   breakpoints, zip(breaks[:-1], breaks[1:]) -- ARE what the generated body yields on the model's
+   breakpoints *)
+Theorem C06_source_flatten_group : forall (A : Type) (comb : A -> list A -> A) (d1 d2 d3 d4 d5 : Z)
+    (f : @row A) (rest : list (@row A)),
+  let g := f :: rest in
+  coords (flatten_group comb g) =
+    Gen.FnIvFlatten.fn_flatten_tuples d1 (Z.of_nat (length g)) d2 (lo f) (hi f) d3 (breaks g) d4 d5 /\
+  coords (flatten_group comb g) =
+    Gen.FnIvFlatten.fn_flatten_tuples_split d1 (Z.of_nat (length g)) d2 (lo f) (hi f) d3 (breaks g) d4 d5.
+Proof. exact @source_flatten_group. Qed.
